@@ -443,6 +443,7 @@ func driver(propID, tier string) int {
 	}
 
 	// determinism gate: the sampled runs again, in one fresh process with GOMAXPROCS=1
+	gateTrouble := ""
 	if len(agg.Det) > 0 {
 		var idx []string
 		for k := range agg.Det {
@@ -458,16 +459,20 @@ func driver(propID, tier string) int {
 		}
 		ws, err := spawnWorker(propID, tier, base, 0, total, strings.Join(idx, ","), 1)
 		if err != nil {
-			fmt.Fprintf(os.Stderr, "simcheck: determinism re-run failed: %v\n", err)
-			return 2
-		}
-		for _, k := range idx {
-			if ws.Det[k] != agg.Det[k] {
-				fmt.Fprintf(os.Stderr, "simcheck: NONDETERMINISTIC SIMULATION: run index %s gave event digest %s, then %s in a second process (GOMAXPROCS=1); refusing to report anything\n", k, agg.Det[k], ws.Det[k])
-				return 2
+			if _, isDL := err.(*deadlockError); !isDL {
+				gateTrouble = fmt.Sprintf("determinism re-run failed: %v", err)
+			}
+		} else {
+			for _, k := range idx {
+				if ws.Det[k] != agg.Det[k] {
+					gateTrouble = fmt.Sprintf("NONDETERMINISTIC SIMULATION: run index %s gave event digest %s, then %s in a second process (GOMAXPROCS=1)", k, agg.Det[k], ws.Det[k])
+					break
+				}
+			}
+			if gateTrouble == "" {
+				agg.Counters["determinism_reruns_identical"] = len(idx)
 			}
 		}
-		agg.Counters["determinism_reruns_identical"] = len(idx)
 	}
 	if agg.Uncontrolled > 0 {
 		fmt.Fprintf(os.Stderr, "simcheck: %d map ranges ran in an order the simulator did not control (keys of a type it cannot canonicalise); runs are not replayable\n", agg.Uncontrolled)
@@ -552,6 +557,17 @@ func driver(propID, tier string) int {
 		}
 	}
 
+	if gateTrouble != "" {
+		if exit == 0 {
+			// nothing else to report: a simulation that does not repeat itself proves nothing
+			fmt.Fprintf(os.Stderr, "simcheck: %s; refusing to report a clean result\n", gateTrouble)
+			return 2
+		}
+		// violations were found and each carries its own replay_verified flag; the library under
+		// test evidently behaves differently from process to process (uncontrolled state: time,
+		// randomness, addresses, goroutines of its own), which is noted, not hidden
+		fmt.Printf("note: %s\n", gateTrouble)
+	}
 	wall := time.Since(t0).Seconds()
 	if err := writeEvidence(root, prop, tier, base, agg, len(keys), len(inters), len(states), len(sites), knownSeen, exit, wall); err != nil {
 		fmt.Fprintf(os.Stderr, "simcheck: evidence: %v\n", err)
